@@ -4,7 +4,9 @@ set - independent of the library and of the Coq model.
 * RefNet: a multimap  can_id -> ordered list of callbacks  (plain dict of lists; an empty list and
   a missing key mean the same), the node registry, and the list of discovered node ids.
 * Callbacks are hashable tuples:  ("u", k) user callback k, ("lss",) the LSS master of the
-  network, ("n", (uid, node_id, local), role) a callback of a node object.
+  network, ("n", (uid, node_id, local), role) a callback of a node object, and
+  ("n", obj, ROLE_SDO_EXTRA, k) the response callback of the k-th additional SDO client channel
+  (k = 1, 2, ...) of a remote-node proxy, which listens on that channel's own response COB-ID.
 * What the property does not specify (the outcome of unsubscribing something that is not
   subscribed; node removal after somebody tampered with the node's own subscriptions) is reported
   as UNSPECIFIED so that the caller stops judging, never guessed.
@@ -17,19 +19,23 @@ TPDO = (0x180, 0x280, 0x380, 0x480)
 SCAN_SERVICES = (HEARTBEAT, SDO_TX) + TPDO + (EMCY,)
 LSS_SLAVE_TO_MASTER = 0x7E4            # CiA 305
 
-ROLE_SDO_RESPONSE, ROLE_HEARTBEAT, ROLE_EMCY, ROLE_NMT, ROLE_SDO_REQUEST = 0, 1, 2, 3, 4
+ROLE_SDO_RESPONSE, ROLE_HEARTBEAT, ROLE_EMCY, ROLE_NMT, ROLE_SDO_REQUEST, ROLE_SDO_EXTRA = 0, 1, 2, 3, 4, 5
 
 UNSPECIFIED = object()
 
 
-def node_subscriptions(obj):
-    """(can_id, callback) pairs of a node object (uid, node_id, local)."""
+def node_subscriptions(obj, extra_tx=()):
+    """(can_id, callback) pairs of a node object (uid, node_id, local); extra_tx = response COB-IDs
+    of its additional SDO channels, in creation order."""
     uid, n, local = obj
     if local:   # a local node serves SDO requests and obeys NMT commands
         return [(SDO_RX + n, ("n", obj, ROLE_SDO_REQUEST)), (NMT, ("n", obj, ROLE_NMT))]
-    # a proxy of a remote node listens to what that node transmits, and tracks NMT commands
-    return [(SDO_TX + n, ("n", obj, ROLE_SDO_RESPONSE)), (HEARTBEAT + n, ("n", obj, ROLE_HEARTBEAT)),
-            (EMCY + n, ("n", obj, ROLE_EMCY)), (NMT, ("n", obj, ROLE_NMT))]
+    # a proxy of a remote node listens to what that node transmits (on every SDO channel it has),
+    # and tracks NMT commands
+    return ([(SDO_TX + n, ("n", obj, ROLE_SDO_RESPONSE))] +
+            [(tx, ("n", obj, ROLE_SDO_EXTRA, k)) for k, tx in enumerate(extra_tx, 1)] +
+            [(HEARTBEAT + n, ("n", obj, ROLE_HEARTBEAT)), (EMCY + n, ("n", obj, ROLE_EMCY)),
+             (NMT, ("n", obj, ROLE_NMT))])
 
 
 def named_node(can_id):
@@ -55,6 +61,21 @@ class RefNet:
         self.m = {LSS_SLAVE_TO_MASTER: [("lss",)]}
         self.nodes = {}
         self.found = []
+        self.extra = {}        # node object -> response COB-IDs of its additional SDO channels
+
+    def subscriptions_of(self, obj):
+        return node_subscriptions(obj, self.extra.get(obj, ()))
+
+    def add_sdo(self, obj, tx):
+        """A further SDO client channel on a remote-node proxy; live at once if the proxy is on the
+        network.  UNSPECIFIED for a local node (it has no client channels)."""
+        if obj[2]:
+            return UNSPECIFIED
+        l = self.extra.setdefault(obj, [])
+        l.append(tx)
+        if self.registered(obj):
+            self.subscribe(tx, ("n", obj, ROLE_SDO_EXTRA, len(l)))
+        return True
 
     def subscribers(self, c):
         return list(self.m.get(c, []))
@@ -78,10 +99,10 @@ class RefNet:
         return True if had else UNSPECIFIED
 
     def _intact(self, obj):
-        return all(h in self.m.get(c, []) for c, h in node_subscriptions(obj))
+        return all(h in self.m.get(c, []) for c, h in self.subscriptions_of(obj))
 
     def _detach(self, obj):
-        for c, h in node_subscriptions(obj):
+        for c, h in self.subscriptions_of(obj):
             self.unsubscribe(c, h)
 
     def add_node(self, obj):
@@ -92,7 +113,7 @@ class RefNet:
                 return UNSPECIFIED
             self._detach(old)
         self.nodes[obj[1]] = obj
-        for c, h in node_subscriptions(obj):
+        for c, h in self.subscriptions_of(obj):
             self.subscribe(c, h)
         return True
 
